@@ -4,4 +4,804 @@ import PM.Transform
 import Proofs.StepToks
 import Proofs.Marks
 namespace PM
+
+/-! ### step maps of one and two ranges, read forwards and backwards -/
+
+theorem mapAux_single_inv (f o n : Int) (p a : Int) :
+    mapAux false p a [(f, o, n)] 0 0 = mapAux true p a [(f, n, o)] 0 0 := by
+  simp [mapAux, Range.oldSize, Range.newSize]
+
+theorem mapAux_pair_inv (s1 o1 n1 s2 s2' o2 n2 : Int) (p a : Int) (hs : s2' - (n1 - o1) = s2) :
+    mapAux false p a [(s1, o1, n1), (s2, o2, n2)] 0 0 =
+      mapAux true p a [(s1, n1, o1), (s2', n2, o2)] 0 0 := by
+  subst hs
+  simp [mapAux, Range.oldSize, Range.newSize]
+
+/-! ### sizes -/
+
+theorem removeBetween_size (sl out : Slice) (f t : Nat) (hft : f ≤ t)
+    (h : sl.removeBetween f t = .ok out) :
+    out.size = sl.size - ((t : Int) - f) ∧ out.openStart = sl.openStart ∧ out.openEnd = sl.openEnd ∧
+      t + sl.openStart ≤ fsize sl.content := by
+  unfold Slice.removeBetween at h
+  simp only at h
+  split at h
+  · simp at h
+  · split at h
+    · rename_i c hc
+      simp at h; subst h
+      obtain ⟨htk, hle⟩ := removeRange_toks sl.content sl.content _ _ 0 _ _ [] c rfl rfl (by simp) (by simp)
+        (by omega) hc
+      have := congrArg List.length htk
+      simp only [List.length_append, List.length_take, List.length_drop, ftoks_length] at this
+      refine ⟨?_, rfl, rfl, hle⟩
+      simp only [Slice.size]
+      omega
+    · simp at h
+
+/-! ### replace steps, structurally -/
+
+theorem fromReplace_elem (S : Schema) (doc doc' : Node) (f t : Nat) (sl : Slice)
+    (h : S.fromReplace doc f t sl = .ok doc') :
+    ∃ ty a m K K', doc = .elem ty a m K ∧ doc' = .elem ty a m K' ∧
+      replaceKids S ty K f t sl = .ok K' := by
+  unfold Schema.fromReplace Schema.replace at h
+  cases doc with
+  | text s m => simp at h
+  | leaf t a m => simp at h
+  | elem ty a m K =>
+    simp only at h
+    cases hr : replaceKids S ty K f t sl with
+    | error e => simp [hr, Except.map] at h
+    | ok K' =>
+      simp [hr, Except.map] at h
+      exact ⟨ty, a, m, K, K', rfl, h.symm, hr⟩
+
+theorem apply_replace_fromReplace (S : Schema) (doc doc' : Node) (f t : Nat) (sl : Slice) (st : Bool)
+    (h : S.apply (.replace f t sl st) doc = .ok doc') : S.fromReplace doc f t sl = .ok doc' := by
+  unfold Schema.apply at h
+  simp only at h
+  split at h
+  · split at h
+    · simp at h
+    · simp at h
+    · exact h
+  · exact h
+
+theorem Slice.toks_length_of_wf {sl : Slice} (hwf : sl.wf = true) :
+    sl.toks.length = sl.size.toNat ∧ 0 ≤ sl.size := by
+  have hw := wf_opens_le hwf
+  simp only [Slice.toks, Slice.size, List.length_take, List.length_drop, ftoks_length]
+  omega
+
+/-- splicing `X` over `[f, t)` and then splicing the old window back over `X` restores the list -/
+theorem splice_undo {α} (K X : List α) (f t : Nat) (hft : f ≤ t) (ht : t ≤ K.length) :
+    (K.take f ++ X ++ K.drop t).take f ++ (K.drop f).take (t - f)
+      ++ (K.take f ++ X ++ K.drop t).drop (f + X.length) = K := by
+  have h1 : (K.take f ++ X ++ K.drop t).take f = K.take f := by
+    rw [List.append_assoc]
+    exact List.take_left' (by simp; omega)
+  have h2 : (K.take f ++ X ++ K.drop t).drop (f + X.length) = K.drop t := by
+    exact List.drop_left' (by simp; omega)
+  rw [h1, h2]
+  have h3 : (K.drop f).take (t - f) ++ K.drop t = K.drop f := by
+    have : K.drop t = (K.drop f).drop (t - f) := by
+      rw [List.drop_drop]; congr 1; omega
+    rw [this, List.take_append_drop]
+  rw [List.append_assoc, h3, List.take_append_drop]
+
+/-! ### normal form is preserved by `insert_into` and `remove_range` -/
+
+theorem set_elem_norm (pre : List Node) (ty : TypeId) (a : Attrs) (m : Marks) (kids inner ns : List Node)
+    (hn : fnorm (pre ++ Node.elem ty a m kids :: ns) = true) (hi : fnorm inner = true) :
+    fnorm (pre ++ Node.elem ty a m inner :: ns) = true := by
+  simp only [fnorm, Bool.and_eq_true] at hn ⊢
+  refine ⟨?_, chainOk_set_elem _ _ _ _ _ _ _ hn.2⟩
+  have h1 := hn.1
+  simp only [fnormKids_append, fnormKids_cons, Bool.and_eq_true] at h1 ⊢
+  exact ⟨h1.1, by rw [Node.norm_elem]; exact hi, h1.2.2⟩
+
+theorem elem_kids_norm (pre : List Node) (ty : TypeId) (a : Attrs) (m : Marks) (kids ns : List Node)
+    (hn : fnorm (pre ++ Node.elem ty a m kids :: ns) = true) : fnorm kids = true := by
+  simp only [fnorm, Bool.and_eq_true] at hn
+  have h1 := hn.1
+  simp only [fnormKids_append, fnormKids_cons, Bool.and_eq_true] at h1
+  rw [← Node.norm_elem ty a m]; exact h1.2.1
+
+theorem flatInsert_norm (S : Schema) (ins : List Node) (parent : Option TypeId) (level : List Node)
+    (d idx : Nat) (c : List Node) (hn : fnorm level = true) (hins : fnorm ins = true)
+    (h : flatInsert S ins parent level d idx = .ok (some c)) : fnorm c = true := by
+  have go : ∀ c, (match fcut level 0 d, fcut level d (fsize level) with
+      | .ok l, .ok r => (.ok (some (fappend (fappend l ins) r)) : Res (Option (List Node)))
+      | .error e, _ => .error e
+      | _, .error e => .error e) = .ok (some c) → fnorm c = true := by
+    intro c hc
+    split at hc
+    · rename_i l r hl hr
+      simp at hc; subst hc
+      exact fappend_norm _ _ (fappend_norm _ _ (fcut_norm level l 0 d hn hl) hins)
+        (fcut_norm level r d _ hn hr)
+    · simp at hc
+    · simp at hc
+  unfold flatInsert at h
+  simp only at h
+  split at h
+  · exact go c h
+  · split at h
+    · simp at h
+    · exact go c h
+    · simp at h
+
+theorem insertInto_norm_aux (S : Schema) (ins : List Node) (hins : fnorm ins = true) :
+    ∀ (rest : List Node) (parent : Option TypeId) (level : List Node) (d0 idx d oa ob : Nat)
+      (pre c : List Node), level = pre ++ rest → idx = pre.length → fnorm level = true →
+      insertInto S ins parent level d0 idx rest d oa ob = .ok (some c) → fnorm c = true
+  | [], parent, level, d0, idx, d, oa, ob, pre, c, hl, hi, hn, h => by
+    unfold insertInto at h
+    split at h
+    · exact flatInsert_norm S ins parent level d0 idx c hn hins h
+    · simp at h
+  | n :: ns, parent, level, d0, idx, d, oa, ob, pre, c, hl, hi, hn, h => by
+    unfold insertInto at h
+    split at h
+    · exact flatInsert_norm S ins parent level d0 idx c hn hins h
+    · split at h
+      · refine insertInto_norm_aux S ins hins ns parent level d0 (idx + 1) (d - n.size) oa ob (pre ++ [n]) c
+          ?_ ?_ hn h
+        · simp [hl]
+        · simp [hi]
+      · split at h
+        · rename_i ty a m kids _
+          simp only at h
+          split at h
+          · rename_i inner hin
+            simp at h; subst h
+            subst hl; subst hi
+            have ih := insertInto_norm_aux S ins hins kids _ kids (d - 1) 0 (d - 1) _ _ [] inner rfl rfl
+              (elem_kids_norm _ _ _ _ _ _ hn) hin
+            rw [set_mid]
+            exact set_elem_norm _ _ _ _ _ _ _ hn ih
+          · simp at h
+          · simp at h
+        · exact flatInsert_norm S ins parent level d0 idx c hn hins h
+
+theorem insertAt_norm (S : Schema) (sl out : Slice) (pos : Nat) (frag : List Node)
+    (hs : fnorm sl.content = true) (hf : fnorm frag = true)
+    (h : sl.insertAt S pos frag = .ok (some out)) :
+    fnorm out.content = true := by
+  unfold Slice.insertAt at h
+  split at h
+  · rename_i c hc
+    simp at h; subst h
+    exact insertInto_norm_aux S frag hf sl.content none sl.content _ 0 _ _ _ [] c rfl rfl hs hc
+  · simp at h
+  · simp at h
+
+theorem removeFlat_norm (level : List Node) (f t : Nat) (c : List Node) (hn : fnorm level = true)
+    (h : removeRange.removeFlat level f t = .ok c) : fnorm c = true := by
+  unfold removeRange.removeFlat at h
+  split at h
+  · simp at h
+  · split at h
+    · simp at h
+    · split at h
+      · rename_i l r hl hr
+        simp at h; subst h
+        exact fappend_norm _ _ (fcut_norm level l 0 f hn hl) (fcut_norm level r t _ hn hr)
+      · simp at h
+      · simp at h
+
+theorem removeRange_norm :
+    ∀ (rest : List Node) (level : List Node) (f0 t0 idx f t : Nat) (pre c : List Node),
+      level = pre ++ rest → idx = pre.length → fnorm level = true →
+      removeRange level f0 t0 idx rest f t = .ok c → fnorm c = true
+  | [], level, f0, t0, idx, f, t, pre, c, hl, hi, hn, h => by
+    unfold removeRange at h
+    split at h
+    · exact removeFlat_norm level f0 t0 c hn h
+    · simp at h
+  | n :: ns, level, f0, t0, idx, f, t, pre, c, hl, hi, hn, h => by
+    unfold removeRange at h
+    split at h
+    · exact removeFlat_norm level f0 t0 c hn h
+    · split at h
+      · refine removeRange_norm ns level f0 t0 (idx + 1) (f - n.size) (t - n.size) (pre ++ [n]) c
+          ?_ ?_ hn h
+        · simp [hl]
+        · simp [hi]
+      · split at h
+        · rename_i ty a m kids _
+          split at h
+          · split at h
+            · rename_i inner hin
+              simp at h; subst h
+              subst hl; subst hi
+              have ih := removeRange_norm kids kids (f - 1) (t - 1) 0 (f - 1) (t - 1) [] inner rfl rfl
+                (elem_kids_norm _ _ _ _ _ _ hn) hin
+              rw [set_mid]
+              exact set_elem_norm _ _ _ _ _ _ _ hn ih
+            · simp at h
+          · simp at h
+        · exact removeFlat_norm level f0 t0 c hn h
+
+theorem removeBetween_norm (sl out : Slice) (f t : Nat) (hs : fnorm sl.content = true)
+    (h : sl.removeBetween f t = .ok out) : fnorm out.content = true := by
+  unfold Slice.removeBetween at h
+  simp only at h
+  split at h
+  · simp at h
+  · split at h
+    · rename_i c hc
+      simp at h; subst h
+      exact removeRange_norm sl.content sl.content _ _ 0 _ _ [] c rfl rfl hs hc
+    · simp at h
+
+/-! ### the parts of a replace-around step -/
+
+theorem apply_replaceAround_parts (S : Schema) (doc doc' : Node) (f t gf gt : Nat) (sl : Slice)
+    (ins : Nat) (st : Bool) (h : S.apply (.replaceAround f t gf gt sl ins st) doc = .ok doc') :
+    ∃ gap inserted, doc.slice gf gt = .ok gap ∧ gap.openStart = 0 ∧ gap.openEnd = 0 ∧
+      sl.insertAt S ins gap.content = .ok (some inserted) ∧
+      S.fromReplace doc f t inserted = .ok doc' := by
+  unfold Schema.apply at h
+  simp only at h
+  split at h
+  · simp at h
+  · split at h
+    · simp at h
+    · rename_i gap hgap
+      split at h
+      · simp at h
+      · rename_i hopen
+        simp only [ne_eq, Bool.or_eq_true, decide_eq_true_eq, not_or, Decidable.not_not] at hopen
+        split at h
+        · simp at h
+        · simp at h
+        · rename_i inserted hinst
+          exact ⟨gap, inserted, hgap, hopen.1, hopen.2, hinst, h⟩
+
+/-- `insertAt_toks` without the well-formedness premise (the size bound alone suffices) -/
+theorem insertAt_toks' (S : Schema) (sl ins : Slice) (pos : Nat) (frag : List Node)
+    (hp : (pos : Int) ≤ sl.size)
+    (h : sl.insertAt S pos frag = .ok (some ins)) :
+    ins.toks = sl.toks.take pos ++ ftoks frag ++ sl.toks.drop pos := by
+  unfold Slice.insertAt at h
+  split at h
+  · rename_i c hc
+    simp at h; subst h
+    obtain ⟨htk, hle⟩ := insertInto_toks S frag none sl.content _ _ _ c hc
+    simp only [Slice.size] at hp
+    have hsz : fsize c = fsize sl.content + fsize frag := by
+      have := congrArg List.length htk
+      simp only [List.length_append, List.length_take, List.length_drop, ftoks_length] at this
+      omega
+    simp only [Slice.toks, htk, hsz]
+    have := insert_window (ftoks sl.content) (ftoks frag) sl.openStart pos sl.openEnd
+      (by rw [ftoks_length]; omega)
+    simpa only [ftoks_length] using this
+  · simp at h
+  · simp at h
+
+/-! ### list windows -/
+
+theorem split5 {α} (K : List α) (f gf gt t : Nat) (h1 : f ≤ gf) (h2 : gf ≤ gt) (h3 : gt ≤ t)
+    (h4 : t ≤ K.length) :
+    ∃ A P G Q D, K = A ++ P ++ G ++ Q ++ D ∧ A.length = f ∧ P.length = gf - f ∧
+      G.length = gt - gf ∧ Q.length = t - gt :=
+  ⟨K.take f, (K.drop f).take (gf - f), (K.drop gf).take (gt - gf), (K.drop gt).take (t - gt), K.drop t,
+    by
+      have e1 : K.drop gf = (K.drop f).drop (gf - f) := by rw [List.drop_drop]; congr 1; omega
+      have e2 : K.drop gt = (K.drop gf).drop (gt - gf) := by rw [List.drop_drop]; congr 1; omega
+      have e3 : K.drop t = (K.drop gt).drop (t - gt) := by rw [List.drop_drop]; congr 1; omega
+      rw [List.append_assoc, List.append_assoc, List.append_assoc, e3, List.take_append_drop, e2,
+        List.take_append_drop, e1, List.take_append_drop, List.take_append_drop],
+    by simp; omega, by simp; omega, by simp; omega, by simp; omega⟩
+
+theorem win_take {α} (A R : List α) (n : Nat) (h : A.length = n) : (A ++ R).take n = A :=
+  List.take_left' h
+
+theorem win_drop {α} (A R : List α) (n : Nat) (h : A.length = n) : (A ++ R).drop n = R :=
+  List.drop_left' h
+
+theorem win_mid {α} (A W R : List α) (a w : Nat) (ha : A.length = a) (hw : W.length = w) :
+    ((A ++ W ++ R).drop a).take w = W := by
+  rw [List.append_assoc, List.drop_left' ha, List.take_left' hw]
+
+
+/-! ### attribute computation -/
+
+/-- lookup in an attribute list -/
+def lk (g : Attrs) (x : String) : Option String := (g.find? (·.1 == x)).map (·.2)
+
+/-- the value `compute_attrs` gives a declared attribute -/
+def valOf (d : AttrDecl) : Option String → Option String
+  | some v => if v != "null" then some v else if d.hasDefault then some d.default else none
+  | none => if d.hasDefault then some d.default else none
+
+theorem computeAttrs_nil (g : Attrs) : computeAttrs [] g = .ok [] := rfl
+
+theorem computeAttrs_cons (d : AttrDecl) (ds : List AttrDecl) (g : Attrs) :
+    computeAttrs (d :: ds) g =
+      match computeAttrs ds g with
+      | .error e => .error e
+      | .ok rest =>
+        match valOf d (lk g d.name) with
+        | some v => .ok ((d.name, v) :: rest)
+        | none => .error .valueError := by
+  simp only [computeAttrs, List.foldr_cons]
+  cases List.foldr _ _ ds with
+  | error e => rfl
+  | ok rest =>
+    simp only [lk, valOf]
+    cases List.find? (fun x => x.1 == d.name) g with
+    | none => simp only [Option.map_none]; split <;> rfl
+    | some q =>
+      simp only [Option.map_some]
+      split
+      · rfl
+      · split <;> rfl
+
+theorem computeAttrs_congr (g g' : Attrs) : ∀ (ds : List AttrDecl),
+    (∀ d ∈ ds, lk g d.name = lk g' d.name) → computeAttrs ds g = computeAttrs ds g'
+  | [], _ => rfl
+  | d :: ds, h => by
+    rw [computeAttrs_cons, computeAttrs_cons,
+      computeAttrs_congr g g' ds (fun d hd => h d (by simp [hd])), h d (by simp)]
+
+theorem lk_cons (k v : String) (g : Attrs) (x : String) :
+    lk ((k, v) :: g) x = if k = x then some v else lk g x := by
+  simp only [lk, List.find?_cons]
+  by_cases hk : k = x
+  · simp [hk]
+  · have : (k == x) = false := by simpa using hk
+    simp only [this, hk, if_false]
+
+theorem computeAttrs_lk (g g' : Attrs) (x : String) (hx : lk g x = lk g' x) :
+    ∀ (ds : List AttrDecl) (r r' : Attrs), computeAttrs ds g = .ok r → computeAttrs ds g' = .ok r' →
+      lk r x = lk r' x
+  | [], r, r', h, h' => by
+    simp only [computeAttrs_nil, Except.ok.injEq] at h h'
+    subst h; subst h'; rfl
+  | d :: ds, r, r', h, h' => by
+    rw [computeAttrs_cons] at h h'
+    cases h1 : computeAttrs ds g with
+    | error e => simp [h1] at h
+    | ok rest =>
+      cases h2 : computeAttrs ds g' with
+      | error e => simp [h2] at h'
+      | ok rest' =>
+        simp only [h1, h2] at h h'
+        have ih := computeAttrs_lk g g' x hx ds rest rest' h1 h2
+        cases hv : valOf d (lk g d.name) with
+        | none => simp [hv] at h
+        | some v =>
+          cases hv' : valOf d (lk g' d.name) with
+          | none => simp [hv'] at h'
+          | some v' =>
+            simp only [hv, hv', Except.ok.injEq] at h h'
+            subst h; subst h'
+            rw [lk_cons, lk_cons, ih]
+            by_cases hd : d.name = x
+            · subst hd
+              rw [hx, hv'] at hv
+              simp [hv]
+            · simp [hd]
+
+theorem lk_set (g : Attrs) (name w x : String) :
+    lk (g.filter (·.1 != name) ++ [(name, w)]) x = if x = name then some w else lk g x := by
+  induction g with
+  | nil =>
+    simp only [List.filter_nil, List.nil_append, lk_cons]
+    by_cases h : x = name
+    · simp [h]
+    · have : ¬ name = x := fun e => h e.symm
+      simp [h, this, lk]
+  | cons q g ih =>
+    obtain ⟨k, v⟩ := q
+    simp only [List.filter_cons]
+    by_cases hk : k = name
+    · subst hk
+      simp only [bne_self_eq_false, Bool.false_eq_true, if_false, ih, lk_cons]
+      by_cases h : x = k
+      · simp [h]
+      · have : ¬ k = x := fun e => h e.symm
+        simp [h, this]
+    · have : (k != name) = true := by simpa using hk
+      simp only [this, if_true, List.cons_append, lk_cons, ih]
+      by_cases h : k = x
+      · subst h; simp [hk]
+      · simp [h]
+
+/-- setting an attribute to its previous value again restores a canonically built attribute list -/
+theorem computeAttrs_undo (ds : List AttrDecl) (a a' : Attrs) (name value v : String)
+    (ha : computeAttrs ds a = .ok a) (hv : lk a name = some v)
+    (h1 : computeAttrs ds (a.filter (·.1 != name) ++ [(name, value)]) = .ok a') :
+    computeAttrs ds (a'.filter (·.1 != name) ++ [(name, v)]) = .ok a := by
+  refine Eq.trans ?_ ha
+  apply computeAttrs_congr
+  intro d _
+  rw [lk_set]
+  by_cases hd : d.name = name
+  · simp [hd, hv]
+  · simp only [hd, if_false]
+    have := computeAttrs_lk (a.filter (·.1 != name) ++ [(name, value)]) a d.name
+      (by rw [lk_set]; simp [hd]) ds a' a h1 ha
+    exact this
+
+/-! ### mark sets: remove / re-add -/
+
+theorem filter_ne_of_not_mem (m : Mark) (l : Marks) (h : m ∉ l) : l.filter (· != m) = l :=
+  List.filter_eq_self.mpr (fun o ho => by
+    have : o ≠ m := fun e => h (e ▸ ho)
+    simpa using this)
+
+theorem removeFromSet_of_not_mem (m : Mark) (l : Marks) (h : m ∉ l) : m.removeFromSet l = l :=
+  filter_ne_of_not_mem m l h
+
+theorem isInSet_iff (m : Mark) (l : Marks) : m.isInSet l = true ↔ m ∈ l := by
+  simp [Mark.isInSet, List.any_eq_true]
+
+theorem filter_ne_insertByRank (m : Mark) (l : Marks) (h : m ∉ l) :
+    (insertByRank m l).filter (· != m) = l := by
+  induction l with
+  | nil => simp [insertByRank]
+  | cons o rest ih =>
+    have hom : o ≠ m := fun e => h (by simp [e])
+    have hr : m ∉ rest := fun hm => h (by simp [hm])
+    simp only [insertByRank]
+    split
+    · simp only [List.filter_cons, bne_self_eq_false, Bool.false_eq_true, if_false]
+      have : (o != m) = true := by simpa using hom
+      simp [this, filter_ne_of_not_mem m rest hr]
+    · have : (o != m) = true := by simpa using hom
+      simp only [List.filter_cons, this, if_true, ih hr]
+
+/-- a predicate that drops exactly the inserted mark -/
+theorem filter_insertByRank_drop (p : Mark → Bool) (m : Mark) (l : Marks) (hm : p m = false)
+    (hl : ∀ o ∈ l, p o = true) : (insertByRank m l).filter p = l := by
+  induction l with
+  | nil => simp [insertByRank, hm]
+  | cons o rest ih =>
+    have ho := hl o (by simp)
+    have hr : ∀ o ∈ rest, p o = true := fun x hx => hl x (by simp [hx])
+    simp only [insertByRank]
+    split
+    · simp only [List.filter_cons, hm, Bool.false_eq_true, if_false, ho, if_true]
+      rw [List.filter_eq_self.mpr hr]
+    · simp only [List.filter_cons, ho, if_true, ih hr]
+
+/-- re-inserting a removed mark puts it back in place when no other mark has its type -/
+theorem insertByRank_erase (m : Mark) : ∀ (ms : Marks), RankSorted ms → ms.Nodup → m ∈ ms →
+    (∀ o ∈ ms, o.ty = m.ty → o = m) → insertByRank m (ms.filter (· != m)) = ms
+  | [], _, _, hm, _ => by simp at hm
+  | o :: rest, hs, hnd, hm, hty => by
+    have ⟨hs1, hs2⟩ := List.pairwise_cons.mp hs
+    have ⟨hnd1, hnd2⟩ := List.nodup_cons.mp hnd
+    by_cases hom : o = m
+    · subst hom
+      simp only [List.filter_cons, bne_self_eq_false, Bool.false_eq_true, if_false]
+      rw [filter_ne_of_not_mem o rest hnd1]
+      cases rest with
+      | nil => simp [insertByRank]
+      | cons r rs =>
+        have h1 : o.ty ≤ r.ty := hs1 r (by simp)
+        have h2 : r.ty ≠ o.ty := fun e => hnd1 (by rw [hty r (by simp) e]; simp)
+        have : r.ty > o.ty := Nat.lt_of_le_of_ne h1 (Ne.symm h2)
+        simp [insertByRank, this]
+    · have hmr : m ∈ rest := by
+        rcases List.mem_cons.mp hm with h | h
+        · exact absurd h.symm hom
+        · exact h
+      have : (o != m) = true := by simpa using hom
+      simp only [List.filter_cons, this, if_true, insertByRank]
+      have hle : ¬ o.ty > m.ty := Nat.not_lt.mpr (hs1 m hmr)
+      simp only [hle, if_false]
+      rw [insertByRank_erase m rest hs2 hnd2 hmr (fun x hx => hty x (by simp [hx]))]
+
+/-- **remove, then add again** -/
+theorem add_remove_eq (S : Schema) (ms : Marks) (m : Mark) (hc : CanonP S ms) (hm : m ∈ ms)
+    (hty : ∀ o ∈ ms, o.ty = m.ty → o = m) : m.addToSet S (m.removeFromSet ms) = ms := by
+  rw [addToSet_eq]
+  have hsub : ∀ o ∈ m.removeFromSet ms, o ∈ ms ∧ o ≠ m := by
+    intro o ho
+    have := List.mem_filter.mp ho
+    exact ⟨this.1, by simpa using this.2⟩
+  have hc1 : ((m.removeFromSet ms).any (fun o => o == m) ||
+      (m.removeFromSet ms).any (fun o => !S.excludes m.ty o.ty && S.excludes o.ty m.ty)) = false := by
+    simp only [Bool.or_eq_false_iff, List.any_eq_false, beq_iff_eq, Bool.and_eq_true,
+      Bool.not_eq_eq_eq_not, Bool.not_true, not_and, Bool.not_eq_true]
+    exact ⟨fun o ho => (hsub o ho).2,
+      fun o ho _ => hc.exclFree o (hsub o ho).1 m hm (hsub o ho).2⟩
+  rw [hc1]
+  simp only [Bool.false_eq_true, if_false]
+  have hf : (m.removeFromSet ms).filter (fun o => !S.excludes m.ty o.ty) = m.removeFromSet ms :=
+    List.filter_eq_self.mpr (fun o ho => by
+      simp [hc.exclFree m hm o (hsub o ho).1 (fun e => (hsub o ho).2 e.symm)])
+  rw [hf]
+  exact insertByRank_erase m ms hc.sorted hc.nodup hm hty
+
+/-- `addToSet` when the mark is new and nothing blocks it -/
+theorem addToSet_length_gt (S : Schema) (ms : Marks) (m : Mark)
+    (h : ms.length < (m.addToSet S ms).length) :
+    m ∉ ms ∧ m.addToSet S ms = insertByRank m ms := by
+  rw [addToSet_eq] at h ⊢
+  split at h
+  · omega
+  · rename_i hcond
+    rw [if_neg hcond]
+    simp only [Bool.or_eq_true, List.any_eq_true, beq_iff_eq, not_or, not_exists, not_and] at hcond
+    have hlen : (insertByRank m (ms.filter fun o => !S.excludes m.ty o.ty)).length =
+        (ms.filter fun o => !S.excludes m.ty o.ty).length + 1 := by
+      simpa using (insertByRank_perm m _).length_eq
+    have hle := List.length_filter_le (fun o => !S.excludes m.ty o.ty) ms
+    have hfe : ms.filter (fun o => !S.excludes m.ty o.ty) = ms :=
+      List.filter_sublist.eq_of_length (by omega)
+    exact ⟨fun hm => hcond.1 m hm rfl, by rw [hfe]⟩
+
+/-- **add (nothing displaced), then remove** -/
+theorem remove_add_eq (S : Schema) (ms : Marks) (m : Mark)
+    (h : (m.addToSet S ms).length = ms.length + 1) : m.removeFromSet (m.addToSet S ms) = ms := by
+  obtain ⟨hm, he⟩ := addToSet_length_gt S ms m (by omega)
+  rw [he]
+  exact filter_ne_insertByRank m ms hm
+
+/-- **add displacing exactly one mark `x`, then add `x` again** -/
+theorem add_displaced_eq (S : Schema) (ms : Marks) (m x : Mark) (hc : CanonP S ms)
+    (hlen : (m.addToSet S ms).length = ms.length)
+    (hx : ms.find? (fun x => !(x.isInSet (m.addToSet S ms))) = some x)
+    (hty : ∀ o ∈ ms, o.ty = x.ty → o = x)
+    (hsym : ∀ o ∈ ms, S.excludes m.ty o.ty = true → S.excludes o.ty m.ty = true) :
+    x.addToSet S (m.addToSet S ms) = ms := by
+  have hxm : x ∈ ms := List.mem_of_find?_eq_some hx
+  have hxn : x ∉ m.addToSet S ms := by
+    have := List.find?_some hx
+    simp only [Bool.not_eq_eq_eq_not, Bool.not_true] at this
+    intro hmem
+    rw [(isInSet_iff x _).mpr hmem] at this
+    exact Bool.noConfusion this
+  rw [addToSet_eq] at hlen hxn
+  rw [addToSet_eq S m ms]
+  split at hlen
+  · rename_i hcond
+    rw [if_pos hcond] at hxn
+    exact absurd hxm hxn
+  · rename_i hcond
+    rw [if_neg hcond] at hxn ⊢
+    simp only [Bool.or_eq_true, List.any_eq_true, beq_iff_eq, not_or, not_exists, not_and] at hcond
+    have hmn : m ∉ ms := fun hm => hcond.1 m hm rfl
+    -- the kept marks are all but `x`
+    have hkx : S.excludes m.ty x.ty = true := by
+      have : x ∉ ms.filter (fun o => !S.excludes m.ty o.ty) :=
+        fun hm => hxn ((mem_insertByRank m x _).mpr (Or.inr hm))
+      have h2 : ¬ ((!S.excludes m.ty x.ty) = true) := fun hp => this (List.mem_filter.mpr ⟨hxm, hp⟩)
+      simpa using h2
+    have hl1 : (ms.filter fun o => !S.excludes m.ty o.ty).length + 1 = ms.length := by
+      have := (insertByRank_perm m (ms.filter fun o => !S.excludes m.ty o.ty)).length_eq
+      simp only [List.length_cons] at this
+      omega
+    have hkeep : ms.filter (fun o => !S.excludes m.ty o.ty) = ms.filter (· != x) := by
+      have e1 : ms.filter (fun o => !S.excludes m.ty o.ty)
+          = (ms.filter (· != x)).filter (fun o => !S.excludes m.ty o.ty) := by
+        rw [List.filter_filter]
+        apply List.filter_congr
+        intro o _
+        by_cases hox : o = x
+        · subst hox; simp [hkx]
+        · have : (o != x) = true := by simpa using hox
+          simp [this]
+      have hlt : (ms.filter (· != x)).length < ms.length :=
+        List.length_filter_lt_length_iff_exists.mpr ⟨x, hxm, by simp⟩
+      rw [e1]
+      apply List.Sublist.eq_of_length List.filter_sublist
+      have h3 : ((ms.filter (· != x)).filter (fun o => !S.excludes m.ty o.ty)).length
+          = (ms.filter fun o => !S.excludes m.ty o.ty).length := by rw [← e1]
+      have h4 := List.length_filter_le (fun o => !S.excludes m.ty o.ty) (ms.filter (· != x))
+      omega
+    rw [hkeep] at hxn ⊢
+    have hsubm : ∀ o ∈ ms.filter (· != x), o ∈ ms ∧ o ≠ x := by
+      intro o ho
+      have := List.mem_filter.mp ho
+      exact ⟨this.1, by simpa using this.2⟩
+    have hxm' : x ≠ m := fun e => hmn (e ▸ hxm)
+    -- adding `x` back
+    rw [addToSet_eq]
+    have hc1 : ((insertByRank m (ms.filter (· != x))).any (fun o => o == x) ||
+        (insertByRank m (ms.filter (· != x))).any
+          (fun o => !S.excludes x.ty o.ty && S.excludes o.ty x.ty)) = false := by
+      simp only [Bool.or_eq_false_iff, List.any_eq_false, beq_iff_eq, Bool.and_eq_true,
+        Bool.not_eq_eq_eq_not, Bool.not_true, not_and, Bool.not_eq_true]
+      refine ⟨fun o ho e => hxn (e ▸ ho), fun o ho hno => ?_⟩
+      rcases (mem_insertByRank m o _).mp ho with rfl | ho
+      · rw [hsym x hxm hkx] at hno; exact Bool.noConfusion hno
+      · exact hc.exclFree o (hsubm o ho).1 x hxm (hsubm o ho).2
+    rw [hc1]
+    simp only [Bool.false_eq_true, if_false]
+    rw [filter_insertByRank_drop _ m _ (by simp [hsym x hxm hkx])
+      (fun o ho => by
+        simp [hc.exclFree x hxm o (hsubm o ho).1 (fun e => (hsubm o ho).2 e.symm)])]
+    exact insertByRank_erase x ms hc.sorted hc.nodup hxm hty
+
+/-- the "nothing displaced, same length" case: the set is unchanged -/
+theorem add_same_length_none (S : Schema) (ms : Marks) (m : Mark)
+    (hlen : (m.addToSet S ms).length = ms.length)
+    (hx : ms.find? (fun x => !(x.isInSet (m.addToSet S ms))) = none) :
+    m.addToSet S ms = ms := by
+  have hall : ∀ o ∈ ms, o ∈ m.addToSet S ms := by
+    intro o ho
+    have := List.find?_eq_none.mp hx o ho
+    simp only [Bool.not_eq_eq_eq_not, Bool.not_true, Bool.not_eq_false] at this
+    exact (isInSet_iff o _).mp (by simpa using this)
+  rw [addToSet_eq] at hlen hall ⊢
+  split
+  · rfl
+  · rename_i hcond
+    rw [if_neg hcond] at hlen hall
+    simp only [Bool.or_eq_true, List.any_eq_true, beq_iff_eq, not_or, not_exists, not_and] at hcond
+    have hl1 : (ms.filter fun o => !S.excludes m.ty o.ty).length + 1 = ms.length := by
+      have := (insertByRank_perm m (ms.filter fun o => !S.excludes m.ty o.ty)).length_eq
+      simp only [List.length_cons] at this
+      omega
+    have hlt : (ms.filter fun o => !S.excludes m.ty o.ty).length < ms.length := by omega
+    obtain ⟨o, ho, hpo⟩ := List.length_filter_lt_length_iff_exists.mp hlt
+    exfalso
+    rcases (mem_insertByRank m o _).mp (hall o ho) with rfl | h
+    · exact hcond.1 o ho rfl
+    · exact hpo (List.mem_filter.mp h).2
+
+/-! ### node-markup steps: the addressed token -/
+
+def Tok.remark (a : Attrs) (m : Marks) : Tok → Tok
+  | .op t _ _ => .op t a m
+  | .leaf t _ _ => .leaf t a m
+  | t => t
+
+def Tok.ty : Tok → TypeId
+  | .op t _ _ => t
+  | .leaf t _ _ => t
+  | _ => 0
+
+theorem recreate_spec (S : Schema) (n u : Node) (attrs : Attrs) (marks : Marks)
+    (h : S.recreate n attrs marks = .ok u) :
+    n.isText = false ∧ fnorm [u] = true ∧
+      ∃ a', computeAttrs (S.nodeType n.headTok.ty).attrs attrs = .ok a' ∧
+        u.headTok = n.headTok.remark a' (setFrom marks) := by
+  unfold Schema.recreate at h
+  cases n with
+  | text s m => simp at h
+  | leaf t a m =>
+    simp only at h
+    cases hc : computeAttrs (S.nodeType t).attrs attrs with
+    | error e => rw [hc] at h; simp [Except.map] at h
+    | ok a' =>
+      rw [hc] at h; simp [Except.map] at h; subst h
+      exact ⟨rfl, by simp [fnorm, chainOk], a', hc, rfl⟩
+  | elem t a m k =>
+    simp only at h
+    cases hc : computeAttrs (S.nodeType t).attrs attrs with
+    | error e => rw [hc] at h; simp [Except.map] at h
+    | ok a' =>
+      rw [hc] at h; simp [Except.map] at h; subst h
+      exact ⟨rfl, by simp [fnorm, chainOk, Node.norm_elem], a', hc, rfl⟩
+
+theorem headTok_remark_self (n : Node) : n.headTok.remark n.attrs n.marks = n.headTok := by
+  cases n <;> rfl
+
+theorem headTok_eq_remark {n n2 : Node} {a : Attrs} {m : Marks} (hn : n.isText = false)
+    (hn2 : n2.isText = false) (h : n2.headTok = n.headTok.remark a m) :
+    n2.headTok.ty = n.headTok.ty ∧ n2.attrs = a ∧ n2.marks = m ∧
+      ∀ a' m', n2.headTok.remark a' m' = n.headTok.remark a' m' := by
+  cases n with
+  | text s mk => simp [Node.isText] at hn
+  | leaf t at_ mk =>
+    cases n2 with
+    | text s mk => simp [Node.isText] at hn2
+    | leaf t2 a2 m2 =>
+      simp only [Node.headTok, Tok.remark, Tok.leaf.injEq] at h
+      obtain ⟨rfl, rfl, rfl⟩ := h
+      exact ⟨rfl, rfl, rfl, fun _ _ => rfl⟩
+    | elem t2 a2 m2 k2 => simp [Node.headTok, Tok.remark] at h
+  | elem t at_ mk k =>
+    cases n2 with
+    | text s mk => simp [Node.isText] at hn2
+    | leaf t2 a2 m2 => simp [Node.headTok, Tok.remark] at h
+    | elem t2 a2 m2 k2 =>
+      simp only [Node.headTok, Tok.remark, Tok.op.injEq] at h
+      obtain ⟨rfl, rfl, rfl⟩ := h
+      exact ⟨rfl, rfl, rfl, fun _ _ => rfl⟩
+
+theorem take_one_drop_getD (K : List Tok) (pos : Nat) (h : pos < K.length) :
+    (K.drop pos).take (pos + 1 - pos) = [K.getD pos Tok.cl] := by
+  rw [show pos + 1 - pos = 1 by omega, List.drop_eq_getElem_cons h, List.take_succ_cons,
+    List.take_zero, List.getD_eq_getElem?_getD, List.getElem?_eq_getElem h, Option.getD_some]
+
+/-- two successive node-markup replacements at `pos` restore the document when the second one
+    rebuilds the original markup of the addressed node -/
+theorem node_undo (S : Schema) (doc doc' doc'' n n2 u1 u2 : Node) (pos : Nat)
+    (attrs1 attrs2 : Attrs) (marks1 marks2 : Marks)
+    (hn : fnorm doc.kids = true)
+    (hn1 : doc.nodeAt pos = .ok (some n)) (hu1 : S.recreate n attrs1 marks1 = .ok u1)
+    (hr1 : S.fromReplace doc pos (pos + 1) ⟨[u1], 0, if n.isLeaf then 0 else 1⟩ = .ok doc')
+    (hn2 : doc'.nodeAt pos = .ok (some n2)) (hu2 : S.recreate n2 attrs2 marks2 = .ok u2)
+    (hr2 : S.fromReplace doc' pos (pos + 1) ⟨[u2], 0, if n2.isLeaf then 0 else 1⟩ = .ok doc'')
+    (hfin : ∀ a1 a2, computeAttrs (S.nodeType n.headTok.ty).attrs attrs1 = .ok a1 →
+      n2.attrs = a1 → n2.marks = setFrom marks1 →
+      computeAttrs (S.nodeType n.headTok.ty).attrs attrs2 = .ok a2 →
+      a2 = n.attrs ∧ setFrom marks2 = n.marks) : doc'' = doc := by
+  obtain ⟨p1, t1, g1, _⟩ := nodeRepl_toks S doc doc' n u1 pos attrs1 marks1 hn1 hu1 hr1
+  obtain ⟨p2, t2, g2, _⟩ := nodeRepl_toks S doc' doc'' n2 u2 pos attrs2 marks2 hn2 hu2 hr2
+  obtain ⟨hnt1, hnu1, a1, hc1, hh1⟩ := recreate_spec S n u1 attrs1 marks1 hu1
+  obtain ⟨hnt2, hnu2, a2, hc2, hh2⟩ := recreate_spec S n2 u2 attrs2 marks2 hu2
+  obtain ⟨ty, a, m, K, K', rfl, rfl, hk1⟩ := fromReplace_elem S doc doc' _ _ _ hr1
+  obtain ⟨ty', a', m', K0, K'', he, rfl, hk2⟩ := fromReplace_elem S _ doc'' _ _ _ hr2
+  cases he
+  simp only [Node.kids] at hn p1 t1 g1 p2 t2 g2
+  have hn' := replaceKids_norm S ty K _ _ _ K' hn hnu1 hk1
+  have hn'' := replaceKids_norm S ty K' _ _ _ K'' hn' hnu2 hk2
+  have hlen : pos < (ftoks K).length := by rw [ftoks_length]; exact p1
+  have e2 : n2.headTok = n.headTok.remark a1 (setFrom marks1) := by
+    rw [← g2, t1, getD_splice _ _ _ _ hlen, hh1]
+  obtain ⟨hty2, hat2, hmk2, hrm2⟩ := headTok_eq_remark hnt1 hnt2 e2
+  rw [hty2] at hc2
+  obtain ⟨ha2, hm2⟩ := hfin a1 a2 hc1 hat2 hmk2 hc2
+  have e3 : u2.headTok = (ftoks K).getD pos Tok.cl := by
+    rw [hh2, hrm2, ha2, hm2, headTok_remark_self, g1]
+  have : ftoks K'' = ftoks K := by
+    rw [t2, t1, e3, ← take_one_drop_getD (ftoks K) pos hlen]
+    exact splice_undo (ftoks K) [u1.headTok] pos (pos + 1) (by omega) (by omega)
+  rw [ftoks_inj K'' K hn'' hn this]
+
+/-! ### the parts of the node-markup steps -/
+
+theorem apply_attr_parts (S : Schema) (doc doc' : Node) (pos : Nat) (name value : String)
+    (h : S.apply (.attr pos name value) doc = .ok doc') :
+    ∃ n u, doc.nodeAt pos = .ok (some n) ∧
+      S.recreate n (n.attrs.filter (·.1 != name) ++ [(name, value)]) n.marks = .ok u ∧
+      S.fromReplace doc pos (pos + 1) ⟨[u], 0, if n.isLeaf then 0 else 1⟩ = .ok doc' := by
+  unfold Schema.apply at h
+  simp only at h
+  split at h
+  · simp at h
+  · simp at h
+  · rename_i n hn
+    split at h
+    · simp at h
+    · rename_i u hu
+      exact ⟨n, u, hn, hu, h⟩
+
+theorem apply_addNodeMark_parts (S : Schema) (doc doc' : Node) (pos : Nat) (mrk : Mark)
+    (h : S.apply (.addNodeMark pos mrk) doc = .ok doc') :
+    ∃ n u, doc.nodeAt pos = .ok (some n) ∧
+      S.recreate n n.attrs (mrk.addToSet S n.marks) = .ok u ∧
+      S.fromReplace doc pos (pos + 1) ⟨[u], 0, if n.isLeaf then 0 else 1⟩ = .ok doc' := by
+  unfold Schema.apply at h
+  simp only at h
+  split at h
+  · simp at h
+  · simp at h
+  · rename_i n hn
+    split at h
+    · simp at h
+    · rename_i u hu
+      exact ⟨n, u, hn, hu, h⟩
+
+theorem apply_removeNodeMark_parts (S : Schema) (doc doc' : Node) (pos : Nat) (mrk : Mark)
+    (h : S.apply (.removeNodeMark pos mrk) doc = .ok doc') :
+    ∃ n u, doc.nodeAt pos = .ok (some n) ∧
+      S.recreate n n.attrs (mrk.removeFromSet n.marks) = .ok u ∧
+      S.fromReplace doc pos (pos + 1) ⟨[u], 0, if n.isLeaf then 0 else 1⟩ = .ok doc' := by
+  unfold Schema.apply at h
+  simp only at h
+  split at h
+  · simp at h
+  · simp at h
+  · rename_i n hn
+    split at h
+    · simp at h
+    · rename_i u hu
+      exact ⟨n, u, hn, hu, h⟩
+
+theorem setFrom_idem_of_canonical (S : Schema) (m : Marks) (h : canonicalMarks S m = true) :
+    setFrom m = m :=
+  setFrom_of_sorted m ((canonicalMarks_iff_canonP S m).1 h).sorted
+
 end PM
